@@ -264,8 +264,21 @@ def model_worker(job):
                     # not reproducible on re-execution: the simulation would be non-deterministic
                     raise worldA.HarnessError(f'model {job["index"]} run {run["id"]}: violation {v.cls} did not reproduce on re-execution')
                 detail = next((x.detail for x in prof['judge'](mb, small, sres) if x.cls == v.cls), v.detail)
-                summary['violations'].append({'class': v.cls, 'detail': detail, 'site': prof['site'](mb, small, sres, v),
-                                              'replay': dict(replay_base, run=small, history=sres.raw[:400], noise=sres.noise[:60])})
+                replay = dict(replay_base, run=small, history=sres.raw[:400], noise=sres.noise[:60])
+                if len(summary['violations']) < 2:
+                    # bounded model shrink (at most 8 recompiles): drop what the minimised run never touched
+                    from . import modelshrink
+                    try:
+                        shrunk = modelshrink.shrink_model(
+                            lambda sp, cf, js: worldA.prepare_model(sp, cf, js, prof['flavor'], engine.SCRATCH_ROOT),
+                            spec, cfgspec, small, prof['judge'], v.cls, mb, sres, budget=8)
+                    except Exception:  # pylint: disable=broad-except
+                        shrunk = None
+                    if shrunk:
+                        sspec, scfg, sjson, srun, shist, snoise = shrunk
+                        replay = dict(replay, spec=sspec, cfgspec=scfg, json_ast=sjson, run=srun, history=shist, noise=snoise,
+                                      model_shrunk_from={'ports': len(spec['component']['ports']), 'interfaces': len(spec['interfaces'])})
+                summary['violations'].append({'class': v.cls, 'detail': detail, 'site': prof['site'](mb, small, sres, v), 'replay': replay})
         summary['pairs_total'] = len(prof['pairs'](mb))
         summary['pairs_covered'] = len(covered & set(prof['pairs'](mb)))
     finally:
